@@ -11,7 +11,7 @@ import numpy as np
 
 from mc import enum as E
 from mc.oracles import axioms
-from mc.runner import Result, horizon, Horizon
+from mc.runner import Result, horizon, Horizon, scratch_dir
 
 ID = "C10"
 TITLE = "pre-computed distances == on-the-fly"
@@ -239,7 +239,7 @@ def viol(prog, prob, sym):
 
 def run(shard, seed):
     res = Result()
-    tmpdir = tempfile.mkdtemp(prefix="c10-", dir="/var/tmp")
+    tmpdir = tempfile.mkdtemp(prefix="c10-", dir=scratch_dir())
     try:
         first = True
         for X, Y, metric, fmt in dataset(shard, seed):
@@ -280,7 +280,7 @@ def run(shard, seed):
 
 def replay(case):
     prog = case["program"]
-    tmpdir = tempfile.mkdtemp(prefix="c10-", dir="/var/tmp")
+    tmpdir = tempfile.mkdtemp(prefix="c10-", dir=scratch_dir())
     try:
         try:
             path = write_matrix(prog["data"], prog["metric"], prog["fmt"], tmpdir)
